@@ -248,6 +248,8 @@ func main() {
 		name := os.Args[2]
 		prop := strings.TrimPrefix(strings.SplitN(name, "_", 2)[0], "Verif")
 		os.Exit(checkProperty(prop, name))
+	case "selftest":
+		os.Exit(selftest())
 	case "replay":
 		rp := os.Args[2]
 		out, detail := nativeReplayFile(rp)
